@@ -40,7 +40,7 @@ def main():
                 print(sid, "DOES NOT APPLY")
                 continue
             res = {"applies": True, "applied_with": how, "checks": {}}
-            for chk in [prop] + EXTRA.get(sid, []):
+            for chk in [prop] + EXTRA.get(prop, []):
                 if chk not in claimed:
                     res["checks"][chk] = "not claimed"
                     continue
